@@ -62,7 +62,10 @@ def _np_wrapper(name):
         fp = sim.fault_plan
         if fp is not None:
             v = fp.on_draw(sim, ctx, name, a, k, v)
-        sim.event("draw", f"{name}:{_val_digest(v)}")
+        dg = f"{name}:{_val_digest(v)}"
+        if len(ctx.first) < 3:
+            ctx.first.append(dg)
+        sim.event("draw", dg)
         return v
 
     w.__name__ = name
